@@ -172,6 +172,17 @@ Theorem spec_check_root_sound : forall before after S flags r r',
 Proof. exact check_topology_level_sound_bycpu. Qed.
 Print Assumptions spec_check_root_sound.
 
+(* hwloc_set_group_depth at the end of the restrict (fix f97426a), as modelled by set_group_depths: the
+   renumbered tree holds the same objects, only attr->group.depth of the objects listed in the table of
+   (Group id, rank of its Group level) changes; special subtrees are untouched.  (That the table built from
+   levels_of gives the k-th Group level the depth k is stated executably by group_depths_check and evaluated on
+   every C output and, through the correspondence, on every model output; it is not proved.) *)
+Theorem restrict_group_depths_objs : forall tbl o q, In q (nflatten (regroup_tree tbl o)) ->
+  exists q0, In q0 (nflatten o) /\ omch q = omch q0 /\ oich q = oich q0 /\ oxch q = oxch q0 /\
+             odata q = match assocN (oid q0) tbl with Some g => set_gdepth (odata q0) g | None => odata q0 end.
+Proof. exact regroup_tree_objs. Qed.
+Print Assumptions restrict_group_depths_objs.
+
 (* ---------------- non-vacuity: a concrete tree ----------------
    Machine{ Package0{NUMA0, PU0{Misc "a"}, PU1, Bridge}, Package1{NUMA1, PU2{Misc "b"}, Bridge{PCI}}, Group{NUMA2 (CPU-less)} } *)
 Definition mkd (id ty os : N) (cs nds : option bset) : dobj :=
@@ -261,5 +272,24 @@ Example ex_alive :
   | Some P1, Some P0 => (alive P1 ex_tree, alive P0 ex_tree)
   | _, _ => ([], [])
   end = ([0; 1; 3; 5; 2], [0; 1; 3; 5; 2; 7; 8; 13; 14]).
+Proof. vm_compute. reflexivity. Qed.
+
+(* two Group levels (depths 0 and 1): restricting to the first outer Group makes the outer level redundant with
+   the Machine; it is merged away and the remaining Group level is renumbered from 1 to 0 *)
+Definition mkg (id : N) (gd : Z) (cs : N) : dobj :=
+  mkDobj id HWLOC_OBJ_GROUP 0%Z 0 (Some (id + 100)) PNull PNull PNull PNull PNull PNull PNull 0 0 0 0 0 0 None [] [] [] []
+         (sN cs) (sN cs) (sN 1) (sN 1) 0 0 (-1)%Z (-1)%Z gd 0%Z 0%Z (-1)%Z (-1)%Z.
+Definition pu (id os : N) : obj := leaf (mkd id HWLOC_OBJ_PU os (sN (2 ^ os)) (sN 1)).
+Definition ex_groups : obj :=
+  Obj (mkd 0 HWLOC_OBJ_MACHINE 0 (sN 255) (sN 1))
+    [ Obj (mkg 1 0 15) [ Obj (mkg 2 1 3) [pu 3 0; pu 4 1] [] [] []; Obj (mkg 5 1 12) [pu 6 2; pu 7 3] [] [] [] ] [] [] [];
+      Obj (mkg 8 0 240) [ Obj (mkg 9 1 48) [pu 10 4; pu 11 5] [] [] []; Obj (mkg 12 1 192) [pu 13 6; pu 14 7] [] [] [] ] [] [] [] ]
+    [ leaf (mkd 15 HWLOC_OBJ_NUMANODE 0 (sN 255) (sN 1)) ] [] [].
+Definition kstruct_filters : list N := [0; 0; 0; 0; 0; 0; 0; 0; 0; 0; 0; 0; 0; 2; 0; 0; 0; 0; 0; 0].
+Example ex_group_depths_renumbered :
+  match restrict_topo kstruct_filters [] (mkTopo ex_groups (bs_of_N 255) (bs_of_N 1)) (bs_of_N 15) 0 with
+  | Done t => map (fun q => (oid q, o_group_depth (odata q))) (filter (fun q => otype q =? HWLOC_OBJ_GROUP) (nflatten (tp_root t)))
+  | _ => []
+  end = [(2, 0%Z); (5, 0%Z)].
 Proof. vm_compute. reflexivity. Qed.
 
